@@ -25,8 +25,8 @@ def run(ctx):
     import controls
     controls.run(ctx, res, "C02", lambda crate, b, v, bs: flow.c02_rules(v, bs)[0])
     res.analysed.update({"report_sites": sites, "payload_loops": loops})
-    res.floor("report sites", sites, 117)
-    res.floor("payload loops", loops, 9)
+    res.floor("report sites", sites, 115)
+    res.floor("payload loops", loops, 8)
     res.trusted_base = ["rustc nightly MIR construction", "mirfacts extractor", "rules/flow.py + rules/sites.py"]
     res.assumptions = ["decides the control-structure half: under all-Continue answers every child is examined and no fault skips its siblings; "
                        "which positions are faults is C05/C06", "unwinding ignored", "derived code: per catalogue entry"]
